@@ -36,7 +36,7 @@ def load(repo):
         m.__path__ = [os.path.join(repo, sub)]
         sys.modules[name] = m
     mods = {}
-    for n in ("timeseries", "parameter", "signal_modifier"):
+    for n in ("timeseries", "parameter", "signal_modifier", "signal_transform"):
         mods[n] = importlib.import_module("mujoco.sysid._src." + n)
         assert os.path.realpath(mods[n].__file__).startswith(os.path.realpath(repo)), mods[n].__file__
     return mods
@@ -48,6 +48,105 @@ def fp(a):
     return [hashlib.sha256(np.ascontiguousarray(a).tobytes()).hexdigest(), list(a.shape), str(a.dtype)]
 
 
+def run_transform(case, mods):
+    """SignalTransform.apply with the registrations of the case: fingerprints of BOTH input series (and of the base
+    arrays that the measured series views) before / after, repeated-apply idempotence, and comparison with the
+    composition of the standalone modifiers."""
+    import numpy as np
+    from fnmatch import fnmatch
+    tsm, pm, sm, stm = mods["timeseries"], mods["parameter"], mods["signal_modifier"], mods["signal_transform"]
+    mapping = lambda: {name: (tsm.SignalType.MjSensor, np.array(idx, dtype=int)) for name, idx in case["mapping"]}
+    ptimes = np.array(case["ptimes"], dtype=float); pdata = np.array(case["pdata"], dtype=float)
+    pad = case.get("pad", 2)
+    mt = np.array(case["mtimes"], dtype=float); md = np.array(case["mdata"], dtype=float)
+    dt = (mt[1] - mt[0]) if len(mt) > 1 else 1.0
+    base_t = np.concatenate([mt[0] - dt * np.arange(pad, 0, -1), mt, mt[-1] + dt * np.arange(1, pad + 1)])
+    base_d = np.vstack([np.full((pad, md.shape[1]), 7.0), md, np.full((pad, md.shape[1]), -7.0)])
+    if case.get("fortran"):
+        base_d = np.asfortranarray(base_d); pdata = np.asfortranarray(pdata)
+    mtimes_v = base_t[pad:len(base_t) - pad] if pad else base_t
+    mdata_v = base_d[pad:len(base_d) - pad] if pad else base_d
+    predicted = tsm.TimeSeries(ptimes, pdata, mapping())
+    measured = tsm.TimeSeries(mtimes_v, mdata_v, mapping())
+    params = pm.ParameterDict()
+    tr = stm.SignalTransform(normalize=case["normalize"])
+    plist = []
+    for k, (pat, val, lo, hi) in enumerate(case["delays"]):
+        q = pm.Parameter("d%d" % k, val, lo, hi); params.add(q); tr.delay(pat, q); plist.append(q)
+    for k, (pat, val, target) in enumerate(case["gains"]):
+        q = pm.Parameter("g%d" % k, val, val - 1.0, val + 1.0); params.add(q); tr.gain(pat, q, target=target); plist.append(q)
+    for k, (pat, val, target) in enumerate(case["biases"]):
+        q = pm.Parameter("b%d" % k, val, val - 1.0, val + 1.0); params.add(q); tr.bias(pat, q, target=target); plist.append(q)
+
+    def fingerprint():
+        f = {"predicted.times": fp(predicted.times), "predicted.data": fp(predicted.data), "measured.times": fp(measured.times),
+             "measured.data": fp(measured.data), "measured.base_times": fp(base_t), "measured.base_data": fp(base_d),
+             "id": [predicted.times is ptimes, predicted.data is pdata, measured.times is mtimes_v, measured.data is mdata_v],
+             "predicted.mapping": [[k, fp(v[1])] for k, v in predicted.signal_mapping.items()],
+             "measured.mapping": [[k, fp(v[1])] for k, v in measured.signal_mapping.items()],
+             "params": [[fp(q.value), fp(q.nominal), fp(q.min_value), fp(q.max_value)] for q in plist]}
+        return f
+
+    rec = {"op": "transform"}
+    before = fingerprint()
+    outs = []
+    try:
+        for rep in range(3):
+            r, p, m = tr.apply(params, predicted, measured, None, True)
+            outs.append((np.array(r, copy=True), np.array(p.times, copy=True), np.array(p.data, copy=True), np.array(m.times, copy=True), np.array(m.data, copy=True)))
+            after = fingerprint()
+            if rep == 0:
+                rec["modified"] = sorted(k for k in before if before[k] != after[k])
+                rec["outputs_are_inputs"] = bool(p is predicted or m is measured)
+                rec["alias_measured"] = bool(np.shares_memory(m.data, base_d)); rec["alias_predicted"] = bool(np.shares_memory(p.data, pdata))
+        rec["modified_after_repeats"] = sorted(k for k in before if before[k] != after[k])
+        rec["idempotent"] = all(all(np.array_equal(a, b, equal_nan=True) for a, b in zip(outs[0], o)) for o in outs[1:])
+        rec["residual"] = outs[0][0].tolist(); rec["residual_third_call"] = outs[2][0].tolist()
+    except Exception as e:  # noqa: BLE001
+        rec["error"] = type(e).__name__ + ": " + str(e)[:200]
+        rec.setdefault("modified", sorted(k for k in before if before[k] != fingerprint()[k]))
+    # composition of the standalone modifiers on fresh copies of the inputs
+    try:
+        P = tsm.TimeSeries(np.array(case["ptimes"], dtype=float), np.array(case["pdata"], dtype=float), mapping())
+        M = tsm.TimeSeries(np.array(case["mtimes"], dtype=float), np.array(case["mdata"], dtype=float), mapping())
+        names = [n for n, _ in case["mapping"]]
+        lo = min([d[2] for d in case["delays"]], default=0.0); hi = max([d[3] for d in case["delays"]], default=0.0)
+        Mw = sm.apply_delayed_ts_window(M, P, lo, hi)
+        sd = {}
+        for pat, val, _, _ in case["delays"]:
+            for n in names:
+                if fnmatch(n, pat):
+                    sd[n] = val
+        Pr = sm.apply_resample_and_delay(P, Mw.times, 0.0, sensor_delays=sd) if sd else P.resample(Mw.times)
+
+        def gb(ts, label):
+            for k, (pat, val, target) in enumerate(case["gains"]):
+                if target in (label, "both"):
+                    for n in names:
+                        if fnmatch(n, pat):
+                            ts = sm.apply_gain(ts, n, pm.Parameter("g", val, val - 1, val + 1))
+            for k, (pat, val, target) in enumerate(case["biases"]):
+                if target in (label, "both"):
+                    for n in names:
+                        if fnmatch(n, pat):
+                            ts = sm.apply_bias(ts, n, pm.Parameter("b", val, val - 1, val + 1))
+            return ts
+        Pr = gb(Pr, "predicted"); Mw = gb(Mw, "measured")
+        ref = Mw.data - Pr.data
+        if case["normalize"]:
+            with np.errstate(all="ignore"):
+                ref = ref / (np.linalg.norm(Mw.data, axis=0) / np.sqrt(2))
+        rec["reference_error"] = None
+        if outs:
+            with np.errstate(all="ignore"):
+                rec["equals_composition"] = bool(np.array_equal(outs[0][0], ref, equal_nan=True) and np.array_equal(outs[0][2], Pr.data, equal_nan=True)
+                                                 and np.array_equal(outs[0][4], Mw.data, equal_nan=True) and np.array_equal(outs[0][3], Mw.times))
+            rec["reference_residual"] = np.asarray(ref).tolist()
+    except Exception as e:  # noqa: BLE001
+        rec["reference_error"] = type(e).__name__ + ": " + str(e)[:200]
+    return rec
+
+
 def main():
     import numpy as np
     mods = load(repo)
@@ -55,6 +154,9 @@ def main():
     req = json.load(sys.stdin)
     results = []
     for case in req["cases"]:
+        if case["op"] == "transform":
+            results.append(run_transform(case, mods))
+            continue
         times = np.array(case["times"], dtype=float)
         data = np.array(case["data"], dtype=float).reshape(len(case["times"]), -1)
         if case.get("fortran"):
